@@ -856,6 +856,48 @@ theorem fieldSet_good (cfg : Cfg) (src : Src) (x : Nat) {s : State} (g : Good s)
       · exact say_good g _
     · exact say_good g _
 
+/-- with the repair, a setter-backed field assignment is dispatched exactly like a command applied to
+    the same source (`ExecCmdMethodCommon`): same errors, same single case, same loop over the copy -/
+theorem fieldSetter_eq_fanOut {cfg : Cfg} (hfix : cfg.fieldFan = true) (s : State) (src : Src) (f : Setter) :
+    fieldSetter cfg s src f = fanOut cfg s src (applySetter f) := by
+  unfold fieldSetter fanOut
+  cases h : evalSrc cfg s src with
+  | nil => simp [receivers]
+  | obj r => cases r <;> simp [receivers]
+  | cont l =>
+    simp only [hfix, if_true, receivers]
+    cases s.lists l with
+    | none => rfl
+    | some rs => by_cases hl : 1 < rs.length <;> simp [hl]
+  | arr rs =>
+    simp only [hfix, if_true, receivers]
+    by_cases hl : 1 < rs.length <;> simp [hl]
+
+theorem applySetter_good (f : Setter) {st : State} (o : ObjId) (g : Good st) (ho : st.alive o = true) :
+    (applySetter f st o).All Good := by
+  cases f with
+  | target x => exact g.of_same rfl rfl rfl rfl rfl rfl rfl rfl
+  | name n => exact setTargetName_good g ho n
+
+theorem fieldSetter_good (cfg : Cfg) (src : Src) (f : Setter) {s : State} (g : Good s) :
+    (fieldSetter cfg s src f).All Good := by
+  have hset : ∀ (st : State) (o : ObjId), Good st → st.alive o = true → (applySetter f st o).All Good :=
+    fun st o gst ho => applySetter_good f o gst ho
+  unfold fieldSetter
+  split
+  · exact say_good g _
+  · exact say_good g _
+  · rename_i o h
+    have hl := evalSrc_live cfg g src
+    rw [h] at hl
+    exact hset _ _ (visited_good g _) hl
+  · split
+    · split
+      · exact fanLoop_good hset _ g
+      · trivial
+      · exact say_good g _
+    · exact say_good g _
+
 theorem stmt_good (cfg : Cfg) {s : State} (g : Good s) (st : Stmt) : (stmt cfg s st).All Good := by
   cases st with
   | act a => exact act_good cfg none g a
@@ -866,6 +908,7 @@ theorem stmt_good (cfg : Cfg) {s : State} (g : Good s) (st : Stmt) : (stmt cfg s
   | fanDelete src =>
     exact fanOut_good cfg (run := fun st o => .ok (destroy st o)) (fun st o gst _ => destroy_good gst o) src (note_good cfg g _)
   | fieldSet src x => exact fieldSet_good cfg src x (note_good cfg g _)
+  | fieldSetter src f => exact fieldSetter_good cfg src f (note_good cfg g _)
 
 theorem run_good (cfg : Cfg) (l : List Stmt) {s : State} (g : Good s) : (run cfg l s).All Good := by
   induction l generalizing s with
